@@ -13,6 +13,12 @@ from typing import Any, Dict, List, Optional, Tuple
 import z3
 
 
+class PathCut(Exception):
+    """This path needs more unrolling of a loop with a symbolic bound than the executor does
+    (a loop invariant would be needed): the path is abandoned, the job is marked incomplete
+    (out of reach) but the obligations of the completed paths are still decided."""
+
+
 class OutOfReach(Exception):
     """A construct outside the supported subset: fail closed (exit 3)."""
 
